@@ -24,6 +24,7 @@ pub fn run_c17(args: &Args) -> Report {
     let orig_cwd = std::env::current_dir().unwrap();
     let depths = ["", "a", "a/b", "a/b/c"];
     let mut case_no = 0;
+    let mut argv_cases: Vec<(String, String, String)> = vec![];
     for depth in 0..4 {
         for cwd_rel in ["equal", "parent", "unrelated"] {
             for entry in ["lib", "cli"] {
@@ -105,7 +106,7 @@ pub fn run_c17(args: &Args) -> Report {
                             } else {
                                 let config = txtpp::Config {
                                     base_dir,
-                                    shell_cmd,
+                                    shell_cmd: shell_cmd.clone(),
                                     inputs: vec![src.clone()],
                                     recursive: false,
                                     num_threads: 2,
@@ -185,9 +186,23 @@ pub fn run_c17(args: &Args) -> Report {
                             if log != want {
                                 fail(format!("the shell received {:?}, expected exactly one argument after -c: {:?}", log, want));
                             }
+                            // ... and what the Lean model of Shell::new / Shell::run says for this shell setting and command
+                            argv_cases.push((shell_cmd.clone(), joined.clone(), log));
                         }
                     }
                 }
+            }
+        }
+    }
+    // the argument vectors the wrapper shell logged vs the Lean model of Shell::new / Shell::run (Model/Shell.lean)
+    {
+        let reqs: Vec<String> = argv_cases.iter().map(|(sh, cmd, _)| format!("shell {} {}", hexs(sh), hexs(cmd))).collect();
+        for ((sh, cmd, log), resp) in argv_cases.iter().zip(model.batch(&reqs).iter()) {
+            rep.count("argv-vs-lean-shell-model");
+            let args: Vec<String> = resp.trim().split(',').filter_map(|h| unhex(h).map(|b| String::from_utf8_lossy(&b).to_string())).collect();
+            let want = format!("argc={}\n{}", args.len(), args.iter().map(|a| format!("[{a}]\n")).collect::<String>());
+            if *log != want {
+                rep.violation("divergence", &format!("C17: shell setting {:?}, command {:?}: the child received {:?}, the Lean model of Shell::new/run gives {:?}", sh, cmd, log, want), &format!("# shell {sh:?} command {cmd:?}\ncfg: build true false 1\n"));
             }
         }
     }
